@@ -523,7 +523,15 @@ func runWait(srv *Server, wc WaitCase) ([]Case, error) {
 				select {
 				case <-gs[k].arrived:
 				case r := <-ch:
-					return fmt.Errorf("wait case %s: query returned before waiting: %d events, err %v", scen, len(r.res.Events), r.err)
+					// the query ended although no waiter goroutine was started for partition k: a verdict
+					n := 0
+					if r.res != nil {
+						n = len(r.res.Events)
+					}
+					v := &Violation{Class: "reader-does-not-wait-on-every-partition", Detail: fmt.Sprintf("%s over %d partition(s): the query returned (%d events after %v, err %v) and never started a wait on partition %d", scen, wc.Parts, n, r.dur, r.err, k)}
+					out = append(out, Case{Coq: GApp("KFan", GNat(wc.Parts), GNat(wc.Target), GNat(written), scen, "false", GNat(n)), Replay: map[string]interface{}{"kind": "wait", "wait": wc},
+						Oracle: v, Stream: "wait", Key: fmt.Sprintf("%s/%d/%s/early", id, len(out), scen)})
+					return errStop
 				case <-time.After(deadline):
 					return fmt.Errorf("wait case %s: the waiter of partition %d did not reach the schedule point", scen, k)
 				}
@@ -593,6 +601,9 @@ func runWait(srv *Server, wc WaitCase) ([]Case, error) {
 		if r.res != nil {
 			next = r.res.NextQueryRequest
 		}
+		if v != nil {
+			return errStop
+		}
 		return nil
 	}
 	to := waitTimeoutS
@@ -600,15 +611,24 @@ func runWait(srv *Server, wc WaitCase) ([]Case, error) {
 		to = 1
 	}
 	if err := step(wc.Scen, to); err != nil {
+		if err == errStop {
+			return out, nil
+		}
 		return nil, err
 	}
 	for i := 0; i < wc.Chain; i++ {
 		if err := step([]string{"WsSleeping", "WsHeld", "WsLateFlush"}[i%3], waitTimeoutS); err != nil {
+			if err == errStop {
+				return out, nil
+			}
 			return nil, err
 		}
 	}
 	return out, nil
 }
+
+// errStop ends a chain of waits after a verdict
+var errStop = fmt.Errorf("stop")
 
 func genWait(r *Rng) WaitCase {
 	wc := WaitCase{Parts: r.PickInt(1, 1, 2, 3, 4), N0: r.PickInt(0, 1, 3)}
